@@ -493,7 +493,7 @@ def judge(line, out, dev):
         scale = 1 + nvel
         chk("Dquat_fd", maxdiff(Dq, FDq), FDTOL, "mjd_quatIntegrate Dquat differs from finite differences")
         chk("Dvel_fd", maxdiff(Dv, FDs), FDTOL, "mjd_quatIntegrate Dvel differs from finite differences w.r.t. scaled velocity")
-        chk("Dscale_fd", maxdiff(Ds, FDh), FDTOL * scale ** 3, "mjd_quatIntegrate Dscale differs from finite differences")
+        chk("Dscale_fd", maxdiff(Ds, FDh), FDTOL * scale, "mjd_quatIntegrate Dscale differs from finite differences")
         if Dq2 != Dq or Ds2 != Ds:
             fails.append(("c24:I:null_outputs", "mjd_quatIntegrate outputs depend on which pointers are NULL"))
     elif op == "S":
